@@ -4,6 +4,8 @@
 package asplib
 
 import (
+	"sort"
+	"strings"
 	"fmt"
 
 	"verif/harness/lib"
@@ -1014,3 +1016,82 @@ func (g *G) Scenario(k int) []*S {
 }
 
 const nScenarios = 17
+
+// SortedKeyProgram: sorted(seq, key=…, reverse=…) over lists in which several distinguishable elements have the same
+// key, so that the order of tied elements is visible: strings keyed by their length, pairs keyed by their first
+// component, ints keyed by x % 3; also reversed(sorted(…)), sorted over the keys of a dict, a def instead of a lambda.
+// long = more than 12 elements (sort.Slice is an insertion sort, hence stable, only up to 12).
+func (g *G) SortedKeyProgram(long bool) []*S {
+	r := g.r
+	n := 3 + r.Intn(8)
+	if long {
+		n = 13 + r.Intn(14)
+	}
+	rev := func() *E {
+		if r.Chance(55) {
+			return Tr()
+		}
+		return Fa()
+	}
+	letters := "abcdefghijklmnopqrstuvwxyz"
+	var prog []*S
+	var seq, key *E
+	switch r.Intn(4) {
+	case 0: // strings keyed by len
+		var ws []*E
+		for i := 0; i < n; i++ {
+			w := strings.Repeat(string(letters[(i*7+r.Intn(3))%26]), 1+r.Intn(3)) + string(letters[i%26])
+			ws = append(ws, Str(w))
+		}
+		prog = append(prog, Asg("xs", g.L(ws...)))
+		seq, key = Nm("xs"), Lam([]string{"w"}, Call("len", Nm("w")))
+	case 1: // pairs keyed by their first component
+		var ps []*E
+		for i := 0; i < n; i++ {
+			ps = append(ps, g.L(I(r.Intn(3)), Str(string(letters[i%26]))))
+		}
+		prog = append(prog, Asg("xs", g.L(ps...)))
+		seq, key = Nm("xs"), Lam([]string{"p"}, Idx(Nm("p"), I(0)))
+	case 2: // ints keyed by x % 3
+		var ns []*E
+		for i := 0; i < n; i++ {
+			ns = append(ns, I(r.Intn(40)))
+		}
+		prog = append(prog, Asg("xs", g.L(ns...)))
+		seq, key = Nm("xs"), Lam([]string{"x"}, Bin(Nm("x"), "%", I(3)))
+	default: // the keys of a dict (sorted by name), keyed by their length
+		// (written in sorted key order: asp dicts iterate in sorted order, Python's in insertion order)
+		names := map[string]bool{}
+		for i := 0; i < n; i++ {
+			names[strings.Repeat(string(letters[(i*5)%26]), 1+r.Intn(3))+string(letters[i%26])] = true
+		}
+		var ks []string
+		for k := range names {
+			ks = append(ks, k)
+		}
+		sort.Strings(ks)
+		var kv []*E
+		for i, k := range ks {
+			kv = append(kv, Str(k), I(i))
+		}
+		prog = append(prog, Asg("d", Dict(kv...)))
+		seq, key = Meth(Nm("d"), "keys"), Lam([]string{"k"}, Call("len", Nm("k")))
+	}
+	if r.Chance(25) { // a def instead of a lambda
+		body := key.A[0]
+		prog = append(prog, Def("kf", key.Vars, nil, Ret(body)))
+		key = Nm("kf")
+	}
+	call := CallKw("sorted", []*E{seq, key, rev()}, []string{"", "key", "reverse"})
+	switch r.Intn(5) {
+	case 0:
+		prog = append(prog, Asg("r", Call("reversed", call)))
+	case 1: // the same list both ways
+		prog = append(prog, Asg("r", call), Asg("q", CallKw("sorted", []*E{seq, key, rev()}, []string{"", "key", "reverse"})))
+	case 2: // key only
+		prog = append(prog, Asg("r", CallKw("sorted", []*E{seq, key}, []string{"", "key"})), Asg("q", call))
+	default:
+		prog = append(prog, Asg("r", call))
+	}
+	return prog
+}
